@@ -208,10 +208,14 @@ class Unit:
             if isinstance(unit_expr, bytes):
                 unit_expr = unit_expr.decode("utf-8")
 
-            # this cache substantially speeds up unit conversions
-            if registry and unit_expr in registry._unit_object_cache:
-                return registry._unit_object_cache[unit_expr]
-            unit_cache_key = unit_expr
+            # this cache substantially speeds up unit conversions; it maps a
+            # name to what the registry says about it, so a unit given an
+            # explicit base_value (e.g. the copy of a unit that predates a
+            # registry edit) neither reads nor seeds it
+            if base_value is None:
+                if registry and unit_expr in registry._unit_object_cache:
+                    return registry._unit_object_cache[unit_expr]
+                unit_cache_key = unit_expr
             unit_expr = parse_unyt_expr(unit_expr)
         # Make sure we have an Expr at this point.
         if not isinstance(unit_expr, Expr):
